@@ -184,12 +184,14 @@ struct Scenario {
     hs_ms: u64,
     /// the script ends while the client must still be retrying: it is only observed that far
     open_end: bool,
+    /// the `drop` steps reset the TCP connection (SO_LINGER 0) instead of closing it with a FIN
+    abortive: bool,
 }
 
 impl Scenario {
     /// everything the scenarios of families A-D have in common
     fn plain() -> Self {
-        Self { kind: Kind::Script, family: "", script: Vec::new(), n: 0, cap_ms: 300, down_at: None, outage_ms: 0, ka: None, wss: false, hs_ms: HS_TIMEOUT_MS, open_end: false }
+        Self { kind: Kind::Script, family: "", script: Vec::new(), n: 0, cap_ms: 300, down_at: None, outage_ms: 0, ka: None, wss: false, hs_ms: HS_TIMEOUT_MS, open_end: false, abortive: false }
     }
     fn steps(&self) -> Option<Vec<Step>> {
         model_x(&self.script, self.n, self.cap_ms, self.ka.is_some(), self.open_end)
@@ -217,6 +219,7 @@ impl Scenario {
             "keepalive_ms": self.ka.map(|(i, t)| json!({"interval": i, "timeout": t})),
             "server_url_scheme": if self.wss { "wss" } else { "ws" },
             "observed_until_end_of_script_only": self.open_end,
+            "drop_is_tcp_reset": self.abortive,
         })
     }
     fn from_json(v: &Value) -> Result<Self, String> {
@@ -242,6 +245,7 @@ impl Scenario {
             wss: v["server_url_scheme"].as_str() == Some("wss"),
             hs_ms: v["handshake_timeout_ms"].as_u64().unwrap_or(HS_TIMEOUT_MS),
             open_end: v["observed_until_end_of_script_only"].as_bool().unwrap_or(false),
+            abortive: v["drop_is_tcp_reset"].as_bool().unwrap_or(false),
         })
     }
     fn ident(&self) -> String {
@@ -265,6 +269,9 @@ impl Scenario {
         }
         if self.wss {
             s += " wss://";
+        }
+        if self.abortive {
+            s += " drop=tcp-reset";
         }
         if self.wss || self.hs_ms != HS_TIMEOUT_MS {
             s += &format!(" handshake_timeout={}ms", self.hs_ms);
@@ -523,6 +530,21 @@ fn build_matrix(thorough: bool) -> (Vec<Scenario>, Bounds) {
         // the loss by silence is failure number 0: one refused retry exhausts max_retry_count = 1
         v.push(e(vec![si, Beh::Reset], 1, ka0, None));
         v.push(e(vec![si], 1, None, None));
+    }
+    // I: the established connection is lost by a TCP reset (the client sees an I/O error, ECONNRESET, instead of an
+    // end of stream without closing handshake): a lost connection like any other
+    let ab = |script: Vec<Beh>, n: u32, cap_ms: u64, down_at: Option<usize>| Scenario { family: "I-tcp-reset-after-handshake", script, n, cap_ms, down_at, abortive: true, ..Scenario::plain() };
+    v.push(ab(vec![Beh::Drop, h], 0, 300, None));
+    v.push(ab(vec![Beh::Drop, h], 1, 300, Some(0)));
+    v.push(ab(vec![Beh::Drop, Beh::Drop, h], 0, 300, Some(1)));
+    v.push(ab(vec![Beh::Reset, Beh::Drop, h], 2, 300_000, None));
+    v.push(ab(vec![Beh::Drop, Beh::Reset], 1, 300, None));
+    if thorough {
+        v.push(ab(vec![Beh::Drop, Beh::Drop, Beh::Drop, h], 1, 300, None));
+        v.push(ab(vec![Beh::Drop, Beh::Close0, h], 0, 300, Some(0)));
+        v.push(ab(vec![Beh::Mute, Beh::Drop, h], 0, 300, None));
+        v.push(ab(vec![Beh::Drop, Beh::Reset, Beh::Reset], 2, 300, None));
+        v.push(Scenario { ka: ka0, ..ab(vec![Beh::Drop, h], 0, 300, Some(0)) });
     }
     // G: the server closes the WebSocket in an orderly way and then keeps the TCP connection open and silent: the
     // tunnel connection is lost all the same (with or without keepalive), and the client reconnects like after `close0`
@@ -823,6 +845,7 @@ async fn exec_script(sc: &Scenario, iso: bool) -> Exec {
         return ex;
     };
     let sh = Shared::new();
+    sh.abortive.store(sc.abortive, std::sync::atomic::Ordering::SeqCst);
     let server = tokio::spawn(serve(listener, sc.script.clone(), sh.clone()));
     let client = spawn_client(sc.client_cfg(sport, lport), sh.clone());
     let mut ctl = Ctl { sh: sh.clone(), lport, locals: Vec::new(), listener_seen: Arc::new(AtomicBool::new(false)) };
@@ -1417,6 +1440,7 @@ async fn exec_outage(sc: &Scenario, iso: bool) -> Exec {
         }
     };
     ex.listen_ms = Some(listen_ms);
+    sh.abortive.store(sc.abortive, std::sync::atomic::Ordering::SeqCst);
     let server = tokio::spawn(serve(listener, sc.script.clone(), sh.clone()));
     let got = sh
         .wait(LONG_WAIT_MS, |l| {
